@@ -131,6 +131,8 @@ pub enum Unit {
     /// type paths in generic declarations and in function signatures
     /// (`typos.rs`)
     TypePos { tree: usize, placement: u32, site: usize },
+    /// member names that collide with what the member types mention (`members.rs`)
+    Members,
 }
 
 pub fn n_trees(tier: Tier) -> usize {
@@ -177,7 +179,7 @@ pub fn kind_has_group(tier: Tier, kind: Kind, group: usize) -> bool {
 }
 
 pub fn unit_table(tier: Tier) -> Vec<Unit> {
-    let mut v = vec![];
+    let mut v = vec![Unit::Members];
     for t in 0..n_trees(tier) {
         let n = tree(t).n();
         for p in 0..(1u32 << n) {
